@@ -40,6 +40,7 @@ type PropCfg struct {
 	Undecided []string   `json:"undecided_clauses"`
 	Trusted   []string   `json:"trusted_base"`
 	Structural []string  `json:"structural"` // names of structural (static) checks to run
+	NoAnchorFiles bool `json:"no_anchor_files"`
 	Bounded   *BoundedCfg `json:"bounded"`   // bounded stand-in (never counted as proved)
 	GoLedger  bool       `json:"go_ledger"` // every go statement of a unit must be acknowledged by its contract
 }
@@ -326,6 +327,41 @@ func cmdCheck(args []string) int {
 			fatal("known_findings.json: %v", err)
 		}
 	}
+	// The property's anchor files (properties.jsonl, given): every contract unit
+	// declared in one of them runs under this property too, whatever its props
+	// tags say - a change there can break the property even when the contract
+	// was written with another property in mind.
+	anchorFiles := map[string]bool{}
+	if pb, err := os.ReadFile(filepath.Join(verifDir, "properties.jsonl")); err == nil {
+		for _, ln := range strings.Split(string(pb), "\n") {
+			var pr struct {
+				ID      string `json:"id"`
+				Anchors struct {
+					Files []string `json:"files"`
+				} `json:"anchors"`
+			}
+			if json.Unmarshal([]byte(ln), &pr) == nil && pr.ID == id {
+				for _, f := range pr.Anchors.Files {
+					if strings.HasSuffix(f, ".go") && !cfg.NoAnchorFiles {
+						anchorFiles[filepath.Clean(f)] = true
+						dir := "./" + filepath.Dir(f)
+						if dir == "./." {
+							dir = "."
+						}
+						have := false
+						for _, p := range cfg.Packages {
+							if p == dir {
+								have = true
+							}
+						}
+						if !have {
+							cfg.Packages = append(cfg.Packages, dir)
+						}
+					}
+				}
+			}
+		}
+	}
 	e := loadAll(cfg.Packages)
 	e.goLedgerOn = cfg.GoLedger
 	timeout := 10
@@ -357,7 +393,7 @@ func cmdCheck(args []string) int {
 	for _, uc := range cfg.Units {
 		addUnit(uc.Key, uc.Sweep)
 	}
-	var specKeys []string
+	var specKeys, anchorKeys []string
 	for k, fs := range e.specs.Funcs {
 		if fs.Trusted {
 			continue
@@ -374,6 +410,13 @@ func cmdCheck(args []string) int {
 				}
 			}
 		}
+		if len(anchorFiles) > 0 && len(fs.Extra["props"]) > 0 {
+			if fi := e.byKey[strings.SplitN(k, "$lit", 2)[0]]; fi != nil && fi.Decl != nil {
+				if rel, err := filepath.Rel(repoDir, e.fset.Position(fi.Decl.Pos()).Filename); err == nil && anchorFiles[filepath.Clean(rel)] {
+					anchorKeys = append(anchorKeys, k)
+				}
+			}
+		}
 	}
 	sort.Strings(specKeys)
 	for _, k := range specKeys {
@@ -382,6 +425,18 @@ func cmdCheck(args []string) int {
 		}
 		addUnit(k, true)
 	}
+	// units pulled in by the anchor files only: their contract obligations, but
+	// neither the zero-annotation safety sweep nor the goroutine ledger (both
+	// are claimed only where a unit is tagged with the property)
+	sort.Strings(anchorKeys)
+	e.goLedgerOn = false
+	for _, k := range anchorKeys {
+		if strings.Contains(k, "$role:") {
+			continue
+		}
+		addUnit(k, false)
+	}
+	e.goLedgerOn = cfg.GoLedger
 	for _, sw := range cfg.Sweeps {
 		var keys []string
 		for k, fi := range e.byKey {
